@@ -42,6 +42,31 @@ fn dens_views_polled<S: Dens>(m: usize, items: &[u64]) -> Result<Vec<Vec<u64>>, 
         vec![v.hs, v.v64, v.v32.iter().map(|x| *x as u64).collect()]
     })
 }
+/// the two entry points are interchangeable: sets with an odd number of items go through sketch_slice, the others through
+/// item-wise sketch + end_sketch, so that in most shapes the two sets of a pair are sketched through different entry points
+fn dens_views_mixed<S: Dens>(m: usize, items: &[u64]) -> Result<Vec<Vec<u64>>, String> {
+    if items.len() % 2 == 1 {
+        return dens_views::<S>(m, items);
+    }
+    let items = items.to_vec();
+    guarded_mut(move || {
+        let mut s = S::new(m);
+        let _w = crate::common::watched(|| format!("item-wise sketch of {} items on a densified sketcher of size {}", items.len(), m));
+        for x in &items {
+            s.sketch(x);
+        }
+        s.end_sketch();
+        let v = s.views();
+        vec![v.hs, v.v64, v.v32.iter().map(|x| *x as u64).collect()]
+    })
+}
+fn opt_mixed(m: usize, items: &[u64]) -> Result<Vec<Vec<u64>>, String> {
+    dens_views_mixed::<OptDensMinHash<f64, u64, FnvHasher>>(m, items)
+}
+fn rev_mixed(m: usize, items: &[u64]) -> Result<Vec<Vec<u64>>, String> {
+    dens_views_mixed::<RevOptDensMinHash<f32, u64, FnvHasher>>(m, items)
+}
+
 fn opt_polled(m: usize, items: &[u64]) -> Result<Vec<Vec<u64>>, String> {
     dens_views_polled::<OptDensMinHash<f64, u64, FnvHasher>>(m, items)
 }
@@ -72,6 +97,8 @@ fn variants() -> Vec<Variant> {
         Variant { name: "RevOptDensMinHash<f64,NoHash>", f: rev::<f64, NoHashHasher> },
         Variant { name: "OptDensMinHash<f64,Fnv> item-wise, views polled whenever no bin is empty", f: opt_polled },
         Variant { name: "RevOptDensMinHash<f64,Fnv> item-wise, views polled whenever no bin is empty", f: rev_polled },
+        Variant { name: "OptDensMinHash<f64,Fnv> slice for odd-sized sets, item-wise for even-sized ones", f: opt_mixed },
+        Variant { name: "RevOptDensMinHash<f32,Fnv> slice for odd-sized sets, item-wise for even-sized ones", f: rev_mixed },
     ]
 }
 
